@@ -918,3 +918,52 @@ def errors_are_fatal(ctx: T.Any, rule: str, fq: str, floor: int) -> None:
         ctx.check(rule, cfg.exit not in after, f"{fq}: `logger.error({msg}...)` is followed by an exit on every path",
                   f"{fq}: an input error is logged but the function returns normally", f"after `logger.error({msg}...)` the normal return is reachable: the rejected input is used anyway",
                   loc=fn.loc(n.ast))
+
+
+def memo_rule(ctx: T.Any, rule: str) -> None:
+    """`utils.memo` (the cache in front of both `compile_pattern`s) answers from the cache only for the same argument tuple:
+    the key is made of all positional arguments, the stored value is `func(*args)`, and the value returned is the one
+    stored under that key."""
+    prog = ctx.prog
+    memo = prog.function("utils.memo")
+    ctx.visit(memo.fq)
+    users = [f.fq for f in prog.all_functions() if any(unparse(d) in ("utils.memo", "memo") for d in getattr(f.node, "decorator_list", []))]
+    ctx.floor(rule, "functions behind utils.memo", len(users), 2)
+    # delegation to functools is fine as it stands
+    rets = [n for n in walk_no_nested(memo.node) if isinstance(n, ast.Return) and n.value is not None]
+    if any(isinstance(r.value, ast.Call) and "lru_cache" in unparse(r.value) or "functools.cache" in unparse(r.value) for r in rets):
+        ctx.ok(rule, "utils.memo delegates to functools' cache (keyed by all arguments)")
+        return
+    inner = [n for n in memo.node.body if isinstance(n, ast.FunctionDef)]
+    ctx.require(len(inner) == 1 and inner[0].args.vararg is not None, "utils.memo: wrapper(*args) not found")
+    w = inner[0]
+    va = w.args.vararg.arg
+    func = memo.params[0]
+    defs = {tg.id: v for st in ast.walk(w) if isinstance(st, ast.Assign) and len(st.targets) == 1 for tg, v in [(st.targets[0], st.value)] if isinstance(tg, ast.Name)}
+
+    def key_ok(e: ast.AST, depth: int = 0) -> bool:
+        if isinstance(e, ast.Name) and e.id in defs and depth < 3:
+            return key_ok(defs[e.id], depth + 1)
+        if isinstance(e, ast.Name):
+            return e.id == va
+        if isinstance(e, ast.Call) and unparse(e.func) in ("str", "repr", "tuple") and len(e.args) == 1 and not e.keywords:
+            return key_ok(e.args[0], depth)
+        return False
+    stores = [st for st in ast.walk(w) if isinstance(st, ast.Assign) and isinstance(st.targets[0], ast.Subscript)]
+    calls = [c for c in ast.walk(w) if isinstance(c, ast.Call) and unparse(c.func) == func]
+    ctx.require(len(stores) == 1 and len(calls) == 1, "utils.memo: expected one cache store and one call of the wrapped function")
+    st = stores[0]
+    key_e = st.targets[0].slice
+    good_key = key_ok(key_e)
+    ctx.check(rule, good_key, "utils.memo: the cache key is made of all positional arguments", "utils.memo: the cache key does not cover all arguments",
+              f"key `{unparse(defs.get(key_e.id, key_e)) if isinstance(key_e, ast.Name) else unparse(key_e)}`: compile_pattern(version_pattern, raw_pattern) answers with the regex of another "
+              f"file pattern that shares the covered arguments", loc=memo.loc(st), witness={"calls": ["compile_pattern('vYYYY.BUILD', '__version__ = \"{version}\"')", "compile_pattern('vYYYY.BUILD', 'Copyright YYYY')"]})
+    c = calls[0]
+    full = len(c.args) == 1 and isinstance(c.args[0], ast.Starred) and unparse(c.args[0].value) == va and (st.value is c or unparse(defs.get(unparse(st.value), st.value)) == unparse(c))
+    ctx.check(rule, full, f"utils.memo: stores {func}(*{va}) under the key", "utils.memo: the cached value is not the wrapped function's result for these arguments", unparse(st), loc=memo.loc(st))
+    wrets = [n for n in walk_no_nested(w) if isinstance(n, ast.Return)]
+    cache = unparse(st.targets[0].value)
+    same = len(wrets) >= 1 and all(r.value is not None and (unparse(r.value) == f"{cache}[{unparse(key_e)}]" or
+                                                            (isinstance(r.value, ast.Name) and r.value.id in defs and unparse(defs[r.value.id]) in (unparse(c), f"{cache}[{unparse(key_e)}]"))) for r in wrets)
+    ctx.check(rule, same, "utils.memo: returns the value stored under the same key", "utils.memo: the returned value is not the one cached for these arguments",
+              f"{[unparse(r) for r in wrets]}", loc=memo.loc(w))
